@@ -2,4 +2,140 @@ import GoRes.Model.QueryEvent
 /-! Helper lemmas for the query event model (C15). -/
 namespace GoRes.QueryEvent
 
+/-- the state carried by a step result -/
+def QStep.st : QStep → RSt
+  | .cont s => s
+  | .panic s _ => s
+
+/-- the number of responses published so far is 1 iff `replied` -/
+def RInv (s : RSt) : Prop :=
+  (s.out.filter isResponse).length = if s.replied then 1 else 0
+
+theorem rinv_init : RInv {} := by simp [RInv]
+
+theorem rinv_reply (s : RSt) (r : Reply) (hr : isResponse r = true) (h : RInv s) :
+    RInv (reply s r) ∧ (reply s r).replied = true := by
+  unfold reply
+  by_cases hs : s.replied = true
+  · simp [hs, h]
+  · simp only [Bool.not_eq_true] at hs
+    simp [RInv, hs, List.filter_append, hr] at h ⊢
+    exact h
+
+theorem rinv_qact (typ : Nat) (s : RSt) (a : QAct) (h : RInv s) : RInv (qact typ s a).st := by
+  cases a with
+  | model ok =>
+    simp only [qact]; split
+    · exact h
+    · exact (rinv_reply s _ (by cases ok <;> rfl) h).1
+  | collection ok =>
+    simp only [qact]; split
+    · exact h
+    · exact (rinv_reply s _ (by cases ok <;> rfl) h).1
+  | change n ok =>
+    simp only [qact]; split
+    · exact h
+    · split
+      · exact h
+      · exact h
+  | add idx ok =>
+    simp only [qact]; split
+    · exact h
+    · split
+      · exact h
+      · exact h
+  | remove idx =>
+    simp only [qact]; split
+    · exact h
+    · split
+      · exact h
+      · exact h
+  | notFound => exact (rinv_reply s _ rfl h).1
+  | invalidQuery c => exact (rinv_reply s _ rfl h).1
+  | error e =>
+    cases e with
+    | res c => exact (rinv_reply s _ rfl h).1
+    | go => exact (rinv_reply s _ rfl h).1
+  | timeout ms =>
+    simp only [qact]; split
+    · exact h
+    · simp only [QStep.st, RInv, List.filter_append] at h ⊢
+      rw [List.length_append, h]
+      simp only [List.filter, isResponse, List.length_nil, Nat.add_zero]
+      rfl
+  | panic p => exact h
+
+theorem rinv_runQ (typ : Nat) (as : List QAct) : ∀ s, RInv s → RInv (runQ typ s as).st := by
+  induction as with
+  | nil => intro s h; exact h
+  | cons a as ih =>
+    intro s h
+    have h1 := rinv_qact typ s a h
+    simp only [runQ]
+    cases hq : qact typ s a with
+    | cont s' => rw [hq] at h1; exact ih s' h1
+    | panic s' p => rw [hq] at h1; exact h1
+
+/-! ## life of a query event -/
+
+theorem step_expired (typ : Nat) (s : St) (h : s.expired = true) (e : Ev) : step typ s e = (s, []) := by
+  cases e <;> simp [step, h]
+
+theorem run_expired (typ : Nat) (s : St) (h : s.expired = true) (evs : List Ev) :
+    (run typ s evs).1 = s ∧ ∀ r ∈ (run typ s evs).2, r = [] := by
+  induction evs with
+  | nil => simp [run]
+  | cons e es ih =>
+    simp only [run, step_expired typ s h e]
+    refine ⟨ih.1, ?_⟩
+    intro r hr
+    simp only [List.mem_cons] at hr
+    rcases hr with rfl | hr
+    · rfl
+    · exact ih.2 r hr
+
+/-- invariant of the life of a query event -/
+def SInv (s : St) : Prop :=
+  s.nilCalls = (if s.expired then 1 else 0) ∧ (s.expired = true → s.listener = false ∧ s.subscribed = false)
+
+theorem sinv_init : SInv {} := by simp [SInv]
+
+theorem sinv_step (typ : Nat) (s : St) (e : Ev) (h : SInv s) : SInv (step typ s e).1 := by
+  by_cases hx : s.expired = true
+  · rw [step_expired typ s hx e]; exact h
+  · simp only [Bool.not_eq_true] at hx
+    cases e with
+    | request p sc => simpa [step, hx, SInv] using h
+    | expire =>
+      have := h.1
+      simp [hx] at this
+      simp [step, hx, SInv, this]
+
+theorem run_cons_fst (typ : Nat) (s : St) (e : Ev) (es : List Ev) :
+    (run typ s (e :: es)).1 = (run typ (step typ s e).1 es).1 := by
+  simp [run]
+
+theorem sinv_run (typ : Nat) (evs : List Ev) : ∀ s, SInv s → SInv (run typ s evs).1 := by
+  induction evs with
+  | nil => intro s h; exact h
+  | cons e es ih =>
+    intro s h
+    rw [run_cons_fst]
+    exact ih _ (sinv_step typ s e h)
+
+theorem run_expire_mem (typ : Nat) (evs : List Ev) :
+    ∀ s, Ev.expire ∈ evs → (run typ s evs).1.expired = true := by
+  induction evs with
+  | nil => intro s h; cases h
+  | cons e es ih =>
+    intro s h
+    rw [run_cons_fst]
+    by_cases hx : (step typ s e).1.expired = true
+    · rw [(run_expired typ _ hx es).1]; exact hx
+    · simp only [List.mem_cons] at h
+      rcases h with rfl | h
+      · exfalso; apply hx
+        by_cases hs : s.expired = true <;> simp [step, hs]
+      · exact ih _ h
+
 end GoRes.QueryEvent
